@@ -347,6 +347,13 @@ func (p *Proxy) InjectEmptyFrame() {
 	}
 }
 
+// KeepLog switches the message log on or off (long, chatty scenarios do not need it).
+func (p *Proxy) KeepLog(on bool) {
+	p.mu.Lock()
+	p.keepLog = on
+	p.mu.Unlock()
+}
+
 // InjectClientFrame sends a complete (masked, unfragmented) text message towards the server on every live connection,
 // between two of the real client's messages: what a peer other than the library's own client might send.
 func (p *Proxy) InjectClientFrame(text string) {
